@@ -813,6 +813,9 @@ func (g *Gen) funcLike(kind fkind, name string) *Node {
 		}
 	}
 	info.nparams = np
+	if !info.simple && kind == fkExpr {
+		sc.selfName = name
+	}
 	if info.simple && !g.strict && kind != fkArrow && g.chance(8) {
 		f.F |= FStrict
 		info.strict = true
